@@ -53,7 +53,7 @@ func genClaimCase(t *rapid.T) interface{} {
 
 func runClaimCase(ci interface{}, rec *pbt.Rec) *pbt.Failure {
 	c := ci.(*ClaimCase)
-	tool := filepath.Join(pbt.Root(), "harness", "bin", "connclaims")
+	tool := filepath.Join(pbt.BinDir(), "connclaims")
 	cfgFile := filepath.Join(pbt.Root(), "harness", "cmd", "connclaims", "connclaims.toml")
 	type dep struct {
 		Recipient  string
